@@ -1451,13 +1451,13 @@ bool parse(const std::string& number, integer<nbits, BlockType, NumberType>& val
 		int byteIndex = 0;
 		bool odd = false;
 		for (std::string::const_reverse_iterator r = number.rbegin();
-			r != number.rend() && byteIndex < maxByteIndex;
+			r != number.rend();
 			++r) {
 			if (*r == '\'') {
 				// ignore
 			}
 			else if (*r == 'x' || *r == 'X') {
-				if (odd) {
+				if (odd && byteIndex < maxByteIndex) {
 					// complete the most significant byte
 					value.setbyte(static_cast<unsigned>(byteIndex), static_cast<uint8_t>(byte));
 				}
@@ -1500,7 +1500,7 @@ bool parse(const std::string& number, integer<nbits, BlockType, NumberType>& val
 			else {
 				if (odd) {
 					byte += charLookup.at(*r) << 4;
-					value.setbyte(static_cast<unsigned>(byteIndex), static_cast<uint8_t>(byte));
+					if (byteIndex < maxByteIndex) value.setbyte(static_cast<unsigned>(byteIndex), static_cast<uint8_t>(byte));
 					++byteIndex;
 				}
 				else {
